@@ -594,6 +594,17 @@ def lookup_rules(run, r_proj, r_null, ast):
                     problems.append("the statement after the look-up does not test `!%s`" % d["name"])
                 else:
                     th = nxt["then"]
+                    # the report may be delegated to a helper that does not return: judge the helper's body instead, with the
+                    # looked-up id bound to its parameter
+                    last0 = astq.strip((th.get("c") or [None])[-1]) if th.get("c") else None
+                    if last0 is not None and last0.get("k") in ("CallExpr", "CXXMemberCallExpr") and last0.get("callee") != "abort":
+                        g = [x for x in ast.funcs if x.get("body") and x["name"] == last0.get("callee")]
+                        args = last0["c"][1:] if last0.get("k") == "CallExpr" else last0["c"][1:]
+                        if g and len(g[0].get("params") or []) == len(args):
+                            hit = [i for i, a in enumerate(args) if astq.text(a) == looked]
+                            if hit:
+                                th = g[0]["body"]
+                                looked = g[0]["params"][hit[0]]["name"]
                     assigns = [n for n in astq.walk(th) if n.get("k") == "BinaryOperator" and n.get("op") == "=" and astq.strip(n["c"][0]).get("k") == "MemberExpr" and astq.strip(n["c"][0]).get("member") == "type"]
                     if not assigns or astq.text(assigns[0]["c"][1]) != looked:
                         problems.append("the unknown_class_error does not carry the looked-up id %s (carries %s)" % (looked, astq.text(assigns[0]["c"][1]) if assigns else "nothing"))
